@@ -212,23 +212,29 @@ def create_redist_dict(
     group, group_size, group_resource = grp_info(dim)
     assert group_resource >= group_size, (group_resource, group_size)
     group_resource -= group_size
-    total_score = sum(score_dict[key] for key in group)
     sorted_scores = sorted(
         [(key, score_dict[key]) for key in group],
         key=lambda x: x[1],
         reverse=True,
     )
+    # Score still to be served at each position, summed from the small end.
+    # Keeping a running total by subtraction loses small scores next to a
+    # large one in floating point and can leave a total of zero or below.
+    remaining_scores = []
+    remaining = 0
+    for _, score in reversed(sorted_scores):
+      remaining = remaining + score
+      remaining_scores.append(remaining)
+    remaining_scores.reverse()
     realloc = {}
-    for pair in sorted_scores:
+    for pair, total_score in zip(sorted_scores, remaining_scores):
       if is_outlier(pair[1], total_score, group_resource, dim - 1):
         realloc.update({pair[0]: dim})
         group_resource -= (dim - 1)
-        total_score -= pair[1]
       else:
         unit_rsc = group_resource / total_score if total_score else 0.0
         realloc.update({pair[0]: rd(pair[1] * unit_rsc)})
         group_resource -= (rd(pair[1] * unit_rsc) - 1)
-        total_score -= pair[1]
 
     for key in realloc:
       assert realloc[key] <= dim, (key, realloc[key], dim)
